@@ -42,8 +42,13 @@ RULE = ("clouds of 6..24 pairwise distinct points (jittered lattice or uniform d
         "(qshape) query as 2-D, (1,n) against (n,), scalars, 0-d arrays, one-element arrays, and queries "
         "with as many points as the data but another shape; (qbroadcast) for every gridder query easting / northing of "
         "DIFFERENT sizes that broadcast - (a,) with (b,1), (1,a) with (b,1), (a,1) with (b,), scalar with (b,), (a,1,1) with "
-        "(1,b,1) - against the base execution on the raveled broadcast arrays; (linear) fit(a d1 + b d2) against a fit(d1) + b fit(d2) with "
-        "a + b != 1, plus negative controls (median of neighbours) on which Coq must see the linearity test FAIL. "
+        "(1,b,1) - against the base execution on the raveled broadcast arrays; (layout-lines) for every gridder the same scattered "
+        "points as 1-D arrays and as 2-D (n_lines, n_samples), (n,1), (1,n) arrays that are NOT meshgrids (each point jittered by up "
+        "to 0.15 of the line / sample spacing), fit and query alike, at coordinate offsets 0, 1, 30, 1e3, UTM-like (extent 4..25 m "
+        "at easting 5e5, northing 7.4e6) and 1e7 x the extent; a pure re-layout, so no conditioning skip: tolerance with "
+        "min(kappa, 1e10); (linear) fit(a d1 + b d2) against a fit(d1) + b fit(d2) with scalars in fixed shares spanning "
+        "1e-12 .. 1e12 (both tiny, both huge, mixed, ordinary) and data magnitudes 1e-12 .. 1e12, compared relative to "
+        "|a| max|fit(d1)| + |b| max|fit(d2)|, never absolutely, plus negative controls (median of neighbours) on which Coq must see the linearity test FAIL. "
         "Coq checks: output shape = model broadcast shape of the query shapes and size; |variant - base| <= 1e3 * 2^-52 * "
         "kappa * max(|data|, |prediction|) for least-squares gridders (kappa from numpy SVD of the scaled, weighted, "
         "damped system; > 1e10 -> counted skip), <= 2^-40 x scale for KNeighbors / Linear (Cubic: its iterative "
@@ -264,14 +269,18 @@ def make_weights(rnd, n, ncomp):
     return [arr([10.0 ** rnd.uniform(-1, 1) for _ in range(n)]) for _ in range(ncomp)]
 
 
-def problem(rnd, g, n=None, m=None, int_coords=False, int_data=False, int_query=False, weighted=None, half=12):
+def problem(rnd, g, n=None, m=None, int_coords=False, int_data=False, int_query=False, weighted=None, half=12, points=None):
     n = n or rnd.choice([6, 8, 9, 10, 12, 12, 15, 16, 18, 20, 24])
     n = max(n, g.minpts)
     m = m or rnd.choice([1, 2, 3, 4, 6, 6, 8, 9, 10, 12])
-    e, nn, scale = cloud(rnd, n, int_coords, wide=int_query, half=half)
-    if int_coords:
-        scale = float(half) / 12.0
-    qe, qn = inside_queries(rnd, e, nn, m, int_query)
+    if points is not None:
+        e, nn, scale, qe, qn = points
+        n = e.size
+    else:
+        e, nn, scale = cloud(rnd, n, int_coords, wide=int_query, half=half)
+        if int_coords:
+            scale = float(half) / 12.0
+        qe, qn = inside_queries(rnd, e, nn, m, int_query)
     d = make_data(rnd, n, g.ncomp, int_data)
     if weighted is None:
         weighted = g.weights and rnd.random() < 0.7
@@ -457,6 +466,9 @@ def tolk(g, spec, variant):
     if g.kind == "exact":
         return "TolExact", None, False
     kap = g.kappa(arr(spec["e"]), arr(spec["n"]), flat_w(spec), spec["conf"])
+    if variant and variant.get("same_arithmetic"):
+        # a pure re-layout of the same values: no skip, the tolerance uses min(kappa, 1e10) (the unchanged code is bit-identical)
+        kap = float(min(kap, KAPPA_MAX))
     if not kap <= KAPPA_MAX:
         return None, kap, True
     if variant and variant.get("float32_arithmetic"):
@@ -635,6 +647,35 @@ def inside_hull(spec):
     return bool(np.all(tri.find_simplex(np.column_stack([spec["qe"], spec["qn"]])) >= 0))
 
 
+LINE_SHAPES = [(3, 4), (4, 3), (2, 5), (5, 2), (4, 4), (3, 5), (4, 6), (5, 4), (2, 6), (6, 3)]
+LINE_OFFSETS = ["zero", "1x", "30x", "1e3x", "utm", "utm", "1e7x"]
+
+
+def lines_problem(rnd, g, k, small=False):
+    """scattered points stored as (n_lines, n_samples) arrays that are NOT a meshgrid: every point is jittered by up to
+    0.15 of the line / sample spacing; the coordinate offset runs from 0 to 1e7 x the extent (UTM-like: a survey a few
+    metres across at easting 5e5, northing 7.4e6).  Returns (spec, (r, c), (rq, cq))"""
+    off = LINE_OFFSETS[k % len(LINE_OFFSETS)]
+    shapes = [sh for sh in LINE_SHAPES if sh[0] * sh[1] <= 12] if small else LINE_SHAPES
+    r, c = shapes[(k // len(LINE_OFFSETS) + rnd.randrange(len(shapes))) % len(shapes)]
+    r, c = max(r, g.minpts // c + 1 if r * c < g.minpts else r), c
+    ext = {"zero": rnd.choice([1.0, 50.0]), "1x": 10.0, "30x": 2.0, "1e3x": 5.0, "utm": rnd.choice([4.0, 25.0]), "1e7x": 1.0}[off]
+    e0, n0 = {"zero": (0.0, 0.0), "1x": (ext, -0.5 * ext), "30x": (30 * ext, 12 * ext), "1e3x": (1e3 * ext, -2e3 * ext),
+              "utm": (5.0e5 + rnd.uniform(0, 1e4), 7.4e6 + rnd.uniform(0, 1e4)), "1e7x": (1e7, -3e7)}[off]
+    for _ in range(100):
+        e = arr([[e0 + ext * (j + 0.5 + 0.3 * rnd.uniform(-1, 1)) / c for j in range(c)] for i in range(r)])
+        nn = arr([[n0 + ext * (i + 0.5 + 0.3 * rnd.uniform(-1, 1)) / r for j in range(c)] for i in range(r)])
+        rq, cq = rnd.choice([(2, 3), (3, 2), (2, 2), (3, 3), (2, 4)])
+        hw = 0.13
+        qe = arr([[e0 + ext * (0.5 + hw * (2 * (j + 0.5 + 0.3 * rnd.uniform(-1, 1)) / cq - 1)) for j in range(cq)] for i in range(rq)])
+        qn = arr([[n0 + ext * (0.5 + hw * (2 * (i + 0.5 + 0.3 * rnd.uniform(-1, 1)) / rq - 1)) for j in range(cq)] for i in range(rq)])
+        spec = problem(rnd, g, points=(e.ravel(), nn.ravel(), ext, qe.ravel(), qn.ravel()))
+        if inside_hull(spec):
+            break
+    spec["conf"]["offset"] = off
+    return spec, (r, c), (rq, cq)
+
+
 def v_dtype(rnd, what, i):
     it = ["int64", "int32"][i % 2]
     v = {"dtype": {}}
@@ -664,13 +705,25 @@ def run_linear(spec):
     return [execute(spec, None, pack(d))["flat"] for d in (d1, d2, d12)]
 
 
-def linear_case(rnd, g, control=False):
+LIN_SCALARS = [(2.0, 3.0), (2e-9, -3.5e-9), (-1.5, 0.75), (1e-12, 3e-12), (1e12, -2e11), (1.0, 1.0), (1e-6, 1e6), (3e9, 1e-9),
+               (0.3, -2.0), (1e-10, 1.0), (1.0, -1.0), (-4e-8, 1e-2)]
+LIN_MAGNITUDES = [(1.0, 1.0), (1e-12, 1e-12), (1e-9, 1.0), (1e12, 1e12), (1.0, 1e-10), (1e-6, 1e6), (3e-11, 2e-9)]
+
+
+def linear_case(rnd, g, control=False, share=0):
     spec = problem(rnd, g)
     if control:
         # median of 3 neighbours, data arranged so that medians do not add up
         spec["d"] = [[float((-1) ** i * (i % 5) * 7 + rnd.random()) for i in range(len(spec["e"]))]]
     d2 = make_data(rnd, len(spec["e"]), g.ncomp)
-    a, b = rnd.choice([(2.0, 3.0), (-1.5, 0.75), (1.0, 1.0), (0.3, -2.0), (1e-2, 40.0), (1.0, -1.0)])
+    # scalars and data magnitudes spanning 1e-12 .. 1e12 in fixed shares (both scalars tiny, both huge, mixed, ordinary);
+    # every comparison is relative to |a| max|fit(d1)| + |b| max|fit(d2)|, never absolute
+    a, b = LIN_SCALARS[share % len(LIN_SCALARS)]
+    a, b = a * rnd.uniform(1.0, 1.5), b * rnd.uniform(1.0, 1.5)
+    if not control:
+        m1, m2 = LIN_MAGNITUDES[(share // len(LIN_SCALARS) + share) % len(LIN_MAGNITUDES)]
+        spec["d"] = [(arr(c) * m1).tolist() for c in spec["d"]]
+        d2 = [c * m2 for c in d2]
     if control:
         d2 = [arr([float((i * 7919) % 11) * 5 - 20 for i in range(len(spec["e"]))])]
         a, b = 1.0, 1.0
@@ -711,7 +764,7 @@ def npts(rnd, name):
 
 def generate(tier, seed):
     rnd = random.Random(seed)
-    reps = 1 if tier == "quick" else 24
+    reps = 1 if tier == "quick" else 16
     cases = []
     for rep in range(reps):
         for gi, name in enumerate(ALL):
@@ -735,7 +788,8 @@ def generate(tier, seed):
             cases.append(pair_case(g, spec, v_dtype(rnd, ["query"], i), "dtype-query/" + name))
             # (6) linearity
             if g.linear:
-                cases.append(linear_case(rnd, g))
+                cases.append(linear_case(rnd, g, share=gi + rep * 5))
+                cases.append(linear_case(rnd, g, share=1 + 2 * (gi + rep)))   # an odd share: tiny scalars / tiny data
         # (4) integer dtypes of fit arguments
         for deg in range(4):
             g = GRIDDERS["trend-%d" % deg]
@@ -749,6 +803,19 @@ def generate(tier, seed):
             # integer lattice clouds tie for k-d tree queries only at lattice queries: the query stays non-integer here
             spec = problem(rnd, g, n=npts(rnd, name), int_coords="coords" in what, int_data="data" in what)
             cases.append(pair_case(g, spec, v_dtype(rnd, what, j + rep), "dtype-fit/" + name))
+        # the same scattered points as 1-D arrays and as 2-D (n_lines, n_samples), (n,1), (1,n) arrays that are not meshgrids,
+        # at coordinate offsets from 0 to 1e7 x the extent (every gridder)
+        for gi, name in enumerate(ALL):
+            g = GRIDDERS[name]
+            for t in range(2):
+                k = 2 * (gi + rep * len(ALL)) + t + rep
+                spec, (r, c), (rq, cq) = lines_problem(rnd, g, k, small=name in SMALL_VEC)
+                n, m = r * c, rq * cq
+                fsh = [[r, c], [r, c], [n, 1], [1, n]][(k // 2) % 4]
+                qsh = [[rq, cq], [m, 1], [1, m], [rq, cq]][(k // 3) % 4]
+                v = {"fit_shape": fsh, "q_shape_e": qsh, "q_shape_n": qsh, "same_arithmetic": True,
+                     "styles": {"e": rnd.choice(["c", "c", "f"]), "qe": rnd.choice(["c", "c", "f"])}}
+                cases.append(pair_case(g, spec, v, "layout-lines-%s/%s" % (spec["conf"]["offset"], name)))
         # dtype of the DATA (and of integer-valued weights) for every gridder: int64 / int32 and float32 storage of
         # values that are exactly representable there, against the float64 base on the same values
         for gi, name in enumerate(ALL):
